@@ -75,6 +75,15 @@ func (c *Config) TokenByExt(chain, ext string) *TokenCfg {
 	return nil
 }
 
+func (c *Config) TokenByDenom(chain, denom string) *TokenCfg {
+	for i := range c.Tokens {
+		if c.Tokens[i].Chain == chain && c.Tokens[i].Denom == denom {
+			return &c.Tokens[i]
+		}
+	}
+	return nil
+}
+
 func (c *Config) Denoms() []string {
 	var out []string
 	seen := map[string]bool{}
